@@ -1,6 +1,7 @@
 package simx
 
 import (
+	"encoding/json"
 	"fmt"
 
 	"github.com/sarchlab/akita/v5/mem/memprotocol"
@@ -24,10 +25,12 @@ type MemOp struct {
 
 // DriverSpec is the immutable script of a Driver.
 type DriverSpec struct {
-	Freq  timing.Freq `json:"freq"`
-	Ops   []MemOp     `json:"ops"`
-	Eager bool        `json:"eager"` // issue as fast as the no-overlapping-bytes rule allows
-	// Targets are the remote ports requests are sent to (Ops[i].Dst indexes it).
+	Freq timing.Freq `json:"freq"`
+	// Script is the JSON encoding of the []MemOp script (component Specs may
+	// not contain nested structs). Build it with NewDriver.
+	Script string `json:"script"`
+	Eager  bool   `json:"eager"` // issue as fast as the no-overlapping-bytes rule allows
+	// Targets are the remote ports requests are sent to (MemOp.Dst indexes it).
 	Targets []messaging.RemotePort `json:"targets"`
 }
 
@@ -63,6 +66,7 @@ type DriverState struct {
 // issues the script through its "Mem" port and records every response.
 type Driver struct {
 	*modeling.Component[DriverSpec, DriverState, modeling.None]
+	Ops []MemOp // decoded from Spec().Script at build time
 }
 
 type driverMW struct{ d *Driver }
@@ -113,8 +117,8 @@ func (m *driverMW) Tick() bool {
 		st.Results = append(st.Results, r)
 	}
 
-	for st.Next < len(spec.Ops) {
-		op := spec.Ops[st.Next]
+	for st.Next < len(d.Ops) {
+		op := d.Ops[st.Next]
 		if op.At > st.Ticks {
 			progress = true // keep ticking until the op becomes due
 			break
@@ -124,7 +128,7 @@ func (m *driverMW) Tick() bool {
 		}
 		blocked := false
 		for _, f := range st.Inflight {
-			if overlaps(spec.Ops[f.Op], op) {
+			if overlaps(d.Ops[f.Op], op) {
 				blocked = true
 				break
 			}
@@ -173,10 +177,12 @@ func (m *driverMW) Tick() bool {
 }
 
 // NewDriver builds a driver named name with a "Mem" port of the given buffer size.
-func NewDriver(e *Env, name string, spec DriverSpec, portBuf int) *Driver {
-	if spec.Freq == 0 {
-		spec.Freq = 1 * timing.GHz
+func NewDriver(e *Env, name string, ops []MemOp, eager bool, targets []messaging.RemotePort, portBuf int) *Driver {
+	script, err := json.Marshal(ops)
+	if err != nil {
+		panic(err)
 	}
+	spec := DriverSpec{Freq: 1 * timing.GHz, Script: string(script), Eager: eager, Targets: targets}
 	c := modeling.NewBuilder[DriverSpec, DriverState, modeling.None]().
 		WithEngine(e.Eng).
 		WithFreq(spec.Freq).
@@ -184,7 +190,7 @@ func NewDriver(e *Env, name string, spec DriverSpec, portBuf int) *Driver {
 		Build(name)
 	c.State = DriverState{Inflight: []inflightOp{}, Results: []DriverResult{}, Anomalies: []string{}}
 	c.DeclarePort("Mem", memprotocol.Requester)
-	d := &Driver{Component: c}
+	d := &Driver{Component: c, Ops: append([]MemOp{}, ops...)}
 	c.AddMiddleware(&driverMW{d: d})
 	e.RegisterComponent(d)
 	e.AssignPorts(d, portBuf, "Mem")
@@ -193,7 +199,7 @@ func NewDriver(e *Env, name string, spec DriverSpec, portBuf int) *Driver {
 
 // Done tells whether every scripted op has been answered.
 func (d *Driver) Done() bool {
-	return d.State.Next == len(d.Spec().Ops) && len(d.State.Inflight) == 0
+	return d.State.Next == len(d.Ops) && len(d.State.Inflight) == 0
 }
 
 // FlatMemory is the reference model of C16: a zero-initialised byte map.
